@@ -74,8 +74,9 @@ where
     }
 
     fn call(&mut self, req: Req) -> Self::Future {
-        // Clone the service for the spawned task
-        let mut service = self.inner.clone();
+        // Take the instance that `poll_ready` was called on and leave a fresh clone behind
+        let clone = self.inner.clone();
+        let mut service = std::mem::replace(&mut self.inner, clone);
         let (tx, rx) = oneshot::channel();
 
         // Spawn the request processing on the executor
